@@ -42,6 +42,10 @@ var c07FundingMuts = []string{
 	// H goes first, then the funding update computed from the state before
 	// that payment is presented as the next version
 	"funding:stale-after-payment",
+	// the honest funding update goes through; right behind it comes an
+	// "ordinary" update for the version after it that is built on the state
+	// before the funding (no new sub-allocation, funds back in the balances)
+	"funding:followed-by-stale-ordinary",
 }
 var c07SettleMuts = []string{
 	"none", "settle:credit-wrong-party", "settle:keep-suballoc", "settle:remove-other-too", "settle:touch-other-suballoc-id", "settle:touch-other-suballoc-indexmap",
@@ -257,6 +261,13 @@ func (c *c07state) intercept(from, to string, e *wire.Envelope) (*wire.Envelope,
 				cr.subID = la.ID
 			}
 		}
+	}
+	if cr.mut == "funding:followed-by-stale-ordinary" {
+		c.mu.Lock()
+		cr.pending = true
+		c.mu.Unlock()
+		go c.staleOrdinary(cr, m, before.Clone())
+		return e, true // the honest funding update is delivered unchanged
 	}
 	if cr.mut == "funding:stale-after-payment" {
 		c.mu.Lock()
@@ -560,6 +571,37 @@ func (c *c07state) staleFunding(cr *craft, honest *client.ChannelUpdateMsg, befo
 	c.mu.Unlock()
 	s.Count("fault.craft."+cr.mut, 1)
 	s.Event("ADV", "adv:craft", fmt.Sprintf("funding %s on %s v%d after a payment of %v", cr.mut, s.ChanName(cr.ch), st.Version, x))
+}
+
+// staleOrdinary: while H handles the honest funding update v+1, A's address
+// sends version v+2 built on v: the locked list and the balances of v. Against
+// v+1 this removes the sub-allocation that was just added.
+func (c *c07state) staleOrdinary(cr *craft, funding *client.ChannelUpdateMsg, before *channel.State) {
+	p, s := c.p, c.p.s
+	A, H := p.n[0], p.n[1]
+	defer func() {
+		c.mu.Lock()
+		cr.pending = false
+		c.mu.Unlock()
+	}()
+	aIdx := int(p.chans[0][0].Idx())
+	st := before.Clone()
+	st.Version = funding.State.Version + 1
+	msg := &client.ChannelUpdateMsg{ChannelUpdate: client.ChannelUpdate{State: st, ActorIdx: channel.Index(aIdx)}, Sig: signAs(A, st)}
+	// the bus delays each message independently: aim at the window in which H
+	// holds the funding update
+	gap := s.Delay("inject:stale-ordinary-gap", 0, []time.Duration{50 * time.Microsecond, 500 * time.Microsecond, 3 * time.Millisecond}[cr.r.Intn(3)])
+	if p.w.Bus.Inject(&wire.Envelope{Sender: A.Wire, Recipient: H.Wire, Msg: msg}, gap) != nil {
+		return
+	}
+	// judged against the funding state, which H holds once it accepted v+1
+	time.Sleep(gap + 20*time.Millisecond)
+	c.mu.Lock()
+	cr.class = "ordinary"
+	cr.before, cr.msg, cr.sigOK, cr.fired = funding.State.Clone(), msg, true, true
+	c.mu.Unlock()
+	s.Count("fault.craft."+cr.mut, 1)
+	s.Event("ADV", "adv:craft", fmt.Sprintf("ordinary %s on %s v%d behind the funding update", cr.mut, s.ChanName(cr.ch), st.Version))
 }
 
 func (c *c07state) settle(step int) bool {
